@@ -26,7 +26,8 @@ Record stream := {
   buf : Z;                           (* unread bytes in the body pipe *)
   hasbody : bool; bclosed : bool;    (* st.body != nil ; pipe closed by the handler *)
   replied : bool;
-  outq : list (Z * bool)             (* queued response DATA frames (length, FIN) *)
+  outq : list (Z * Z * bool)         (* the stream's write queue: (kind, n, FIN); kind 0 DATA of n bytes,
+                                        9 WINDOW_UPDATE(stream, n), 2 SYN_REPLY *)
 }.
 Record conn := {
   strs : list stream; maxid : Z; cur : Z;
@@ -74,7 +75,7 @@ Definition close_s (c : conn) (id : Z) : conn := set_strs c (remove_s id (strs c
 Definition s_with_in (s : stream) (inf b bb : Z) (stt : Z) : stream :=
   {| sid := sid s; sstate := stt; sinflow := inf; soflow := soflow s; decl := decl s; bodyb := bb; buf := b;
      hasbody := hasbody s; bclosed := bclosed s; replied := replied s; outq := outq s |}.
-Definition s_with_out (s : stream) (ofl : Z) (rep : bool) (q : list (Z * bool)) : stream :=
+Definition s_with_out (s : stream) (ofl : Z) (rep : bool) (q : list (Z * Z * bool)) : stream :=
   {| sid := sid s; sstate := sstate s; sinflow := sinflow s; soflow := ofl; decl := decl s; bodyb := bodyb s;
      buf := buf s; hasbody := hasbody s; bclosed := bclosed s; replied := rep; outq := q |}.
 Definition s_bclose (s : stream) : stream :=
@@ -110,7 +111,12 @@ Fixpoint pump (fuel : nat) (c : conn) (id : Z) : conn * list val :=
     | Some s =>
       match outq s with
       | [] => (c, [])
-      | (n, fin) :: q =>
+      | (k, n, fin) :: q =>
+        if negb (k =? 0) then
+          (* a control frame queued on the stream (firstIsNoCost) *)
+          let c1 := upd c (s_with_out s (soflow s) (replied s) q) in
+          let '(c3, fs) := pump f c1 id in (c3, (if k =? 9 then f_wu id n else f_reply id) :: fs)
+        else
         let allowed := zmin (zmin (soflow s) (cflow c)) MAXFRAME in
         if (n =? 0) || ((0 <? allowed) && (n <=? allowed)) then
           (* whole frame *)
@@ -123,7 +129,7 @@ Fixpoint pump (fuel : nat) (c : conn) (id : Z) : conn * list val :=
           else
             let '(c3, fs) := pump f c1 id in (c3, f_data id n false :: fs)
         else if 0 <? allowed then
-          let s' := s_with_out s (soflow s - allowed) (replied s) ((n - allowed, fin) :: q) in
+          let s' := s_with_out s (soflow s - allowed) (replied s) ((0, n - allowed, fin) :: q) in
           let c1 := set_cflow (upd c s') (cflow c - allowed) in
           let '(c3, fs) := pump f c1 id in (c3, f_data id allowed false :: fs)
         else (c, [])
@@ -242,8 +248,9 @@ Definition handler_read (c : conn) (id k : Z) : conn * list val * Z :=
           match flow_add (sinflow s) n with
           | None => (c1, [Bug], n)
           | Some si =>
-            let '(c2, fs) := then_tickle (upd c1 (s_with_in s si (buf s - n) (bodyb s) (sstate s)),
-                                          emit c1 [f_wu 0 n; f_wu id n]) in (c2, fs, n)
+            let s1 := s_with_in s si (buf s - n) (bodyb s) (sstate s) in
+            let s2 := s_with_out s1 (soflow s1) (replied s1) (outq s1 ++ [(9, n, false)]) in
+            let '(c2, fs) := then_tickle (upd c1 s2, emit c1 [f_wu 0 n]) in (c2, fs, n)
           end
       end
   end.
@@ -252,9 +259,9 @@ Definition handler_write (c : conn) (id n : Z) (fin : bool) : conn * list val :=
   match find_s id (strs c) with
   | None => (c, [])
   | Some s =>
-    let hdr := if replied s then [] else emit c [f_reply id] in
-    let s' := s_with_out s (soflow s) true (outq s ++ [(n, fin)]) in
-    let '(c', fs) := tickle (upd c s') in (c', hdr ++ fs)
+    let hdr := if replied s then [] else [(2, 0, false)] in
+    let s' := s_with_out s (soflow s) true (outq s ++ hdr ++ [(0, n, fin)]) in
+    tickle (upd c s')
   end.
 Definition handler_close_body (c : conn) (id : Z) : conn * list val :=
   match find_s id (strs c) with
@@ -280,7 +287,7 @@ Definition step (c : conn) (ev : val) : option (conn * list val * Z) :=
   end.
 Definition has_bug (fs : list val) : bool := existsb (val_eqb Bug) fs.
 Definition obs (c : conn) (fs : list val) (x : Z) : val := VL [vbool (negb (dead c)); VL fs; VZ x].
-Fixpoint run (c : conn) (evs : list val) : option (list val * conn) :=
+Fixpoint run_events (c : conn) (evs : list val) : option (list val * conn) :=
   match evs with
   | [] => Some ([], c)
   | ev :: r =>
@@ -288,7 +295,7 @@ Fixpoint run (c : conn) (evs : list val) : option (list val * conn) :=
     | None => None
     | Some (c', fs, x) =>
       if has_bug fs then Some ([Bug], c')
-      else match run c' r with
+      else match run_events c' r with
            | Some (os, cf) => Some (obs c' fs x :: os, cf)
            | None => None
            end
